@@ -11,3 +11,5 @@ import ReuseVerif.Model.Precedence
 import ReuseVerif.Spec.Precedence
 import ReuseVerif.Model.Covered
 import ReuseVerif.Spec.Covered
+import ReuseVerif.Model.Aggregate
+import ReuseVerif.Generated.EndPattern
